@@ -106,7 +106,7 @@ let () =
                   (match m' with Ok _ -> () | _ -> ())
                 end else begin
                   (match String.split_on_char '|' ob with
-                   | [len; wrap; rows; mstr; ix; counts; count1; bm] ->
+                   | [len; wrap; rows; mstr; ix; counts; count1; bm; all] ->
                        let ilen = int_of_string len and iwrap = int_of_string wrap and irows = int_of_string rows in
                        let imat = matrix_of_string mstr in
                        let ist = { mat = imat; slen = nat_of_int ilen; swrap = nat_of_int iwrap } in
@@ -124,7 +124,8 @@ let () =
                          if str = "P" then Panic O
                          else (try Ok (List.map (fun x -> nat_of_int (int_of_string x)) (split ',' str)) with _ -> Panic O) in
                        let agree = not (String.length bm > 0 && bm.[0] = '!') in
-                       let ob = { o_st = ist; o_index = o_index; o_counts = res_of_counts counts;
+                       let o_all = if String.contains all 'P' then Panic O else Ok (seq_of_string all) in
+                       let ob = { o_st = ist; o_index = o_index; o_all = o_all; o_counts = res_of_counts counts;
                                   o_count1 = res_of_counts count1; o_agree = agree } in
                        if irows <> List.length imat then propfail (Printf.sprintf "op%d rows()=%d but %d rows listed" n irows (List.length imat))
                        else if not (check_C04 kn cn s ob) then begin
@@ -133,6 +134,12 @@ let () =
                          else if not (check_striped kn cn s ist) then
                            propfail (Printf.sprintf "op%d not-striped len=%d/%d wrap=%d rows=%d C=%d" n ilen sl iwrap irows c)
                          else if not (check_wrap_rows kn ist) then propfail (Printf.sprintf "op%d wrap-row-shift" n)
+                         else if o_all <> Ok s then begin
+                           let exp = string_of_seq s in
+                           let j = ref 0 in
+                           while !j < String.length all && !j < String.length exp && all.[!j] = exp.[!j] do incr j done;
+                           propfail (Printf.sprintf "op%d index-all first difference at %d (%d indexed, len %d)" n !j (if all = "-" then 0 else String.length all) sl)
+                         end
                          else if counts <> lc then propfail (Printf.sprintf "op%d count_symbols %s expected %s" n counts lc)
                          else if count1 <> lc then propfail (Printf.sprintf "op%d count_symbol %s expected %s" n count1 lc)
                          else if not agree then propfail (Printf.sprintf "op%d backend-mismatch %s" n bm)
